@@ -83,6 +83,12 @@ def gen_projects(rng, quick):
             if tagged:
                 rng.choice(tagged)["raw"] = True
         proj = G.assemble(rng, name, LAYOUTS[i % len(LAYOUTS)], specs, npk)
+        # every second project: a TAGGED package whose targets are all namespace methods
+        if i % 2 == 0:
+            tg = sorted({s["pkg"] for s in specs if G.oracle_tag(s) is not None})
+            if tg:
+                j = rng.choice(tg)
+                proj["packages"][j] = G.gen_package(rng, j, shape="ns")
         # the same package as a root import twice is a name clash (C07): drop a second root
         seen = set()
         for f in proj["files"]:
@@ -346,9 +352,24 @@ def run(ctx):
     else:
         projects = gen_projects(rng, ctx.quick)
         sequences = gen_sequences(rng, ctx.quick)
+    # observation only (no case, no oracle): a tagged import of a package without any target
+    watch = None
+    if not ctx.replay:
+        watch = G.assemble(rng, "z0000", "inside", [G.gen_spec(rng, 0, "group_lead", 0, "root"), G.gen_spec(rng, 1, "single_above", 1, "alias")], 2)
+        watch["packages"][0] = G.gen_package(rng, 0, shape="empty")
+        watch["packages"][0]["nested"] = None
+        G.uniquify(rng, watch)
     ctx.log("projects:", len(projects), "sequences:", len(sequences))
     results = pmap(lambda j: run_sequence(ctx, mage, unitbin, j, outside) if "sequence" in j else run_project(ctx, mage, j, outside),
-                   projects + sequences)
+                   projects + sequences + ([watch] if watch else []))
+    if watch:
+        w = results.pop()
+        cov_watch = {"what": "a tagged import of a package WITHOUT any target (observation only; the property sentence would have it contribute nothing)",
+                     "mage_-l_exit": w["list_rc"], "error_class": w.get("error"), "listed": w.get("names"),
+                     "stderr": (w.get("stderr") or "")[-300:]}
+        ctx.coverage["observation_tagged_package_without_targets"] = cov_watch
+        if w["list_rc"] != 0:
+            ctx.notes.append("observation: a mage:import of a package without targets makes `mage -l` fail (%s): %s" % (w.get("error"), (w.get("stderr") or "").strip()[-200:]))
     observations = results[:len(projects)]
     # the steps of the sequences are cases like the projects: (state, observation); origin[i] = (sequence, step) for reporting
     nproj = len(projects)
@@ -369,7 +390,7 @@ def run(ctx):
     cov = ctx.coverage
     combos = set()
     dist = {"specs": 0, "untagged": 0, "root": 0, "named": 0}
-    by = {"placement": {}, "group_length": {}, "spelling": {}, "kind": {}, "position": {}, "layout": {}, "raw_path_literal": {}}
+    by = {"placement": {}, "group_length": {}, "spelling": {}, "kind": {}, "position": {}, "layout": {}, "raw_path_literal": {}, "tagged_package_shape": {}}
     nerr = 0
     for proj, obs, ast in zip(projects, observations, asts):
         by["layout"][proj["layout"]] = by["layout"].get(proj["layout"], 0) + 1
@@ -387,6 +408,9 @@ def run(ctx):
                     if s.get("raw"):
                         by["raw_path_literal"]["tagged" if t is not None else "untagged"] = by["raw_path_literal"].get("tagged" if t is not None else "untagged", 0) + 1
                     combos.add(combo)
+                    if t is not None:
+                        shp = proj["packages"][s["pkg"]].get("shape", "?")
+                        by["tagged_package_shape"][shp] = by["tagged_package_shape"].get(shp, 0) + 1
                     for k, v in (("placement", m["placement"]), ("group_length", str(glen)), ("spelling", str(m.get("spelling"))),
                                  ("kind", m["kind"]), ("position", m["position"])):
                         by[k][v] = by[k].get(v, 0) + 1
